@@ -16,7 +16,8 @@ type verifDump struct {
 	attrs []string
 	aints []int32 // values of the int32 attributes, in listing order
 	errs  int
-	// partial reads, four fixed selections per dataset (rank 1: [0], [1..2], [2..7]; rank 2: row 0, columns 1..2);
+	// partial reads, six fixed selections per dataset (rank 1: [0], [1..2], [2..7], strided {0,2}; rank 2: row 0,
+	// columns 1..2, and columns {0,2} of row 0);
 	// nil where the selection was refused or failed
 	slices [][]float64
 	// per call: what each Read / attribute listing returned for each path (absent when the call failed)
@@ -69,6 +70,15 @@ func verifComparePerCall(cut, intact verifDump) {
 			}
 		}
 	}
+}
+
+func verifHyperOf(ds *Dataset, start, count, stride, block []uint64) []float64 {
+	got, err := ds.ReadHyperslab(&HyperslabSelection{Start: start, Count: count, Stride: stride, Block: block})
+	if err != nil {
+		return nil
+	}
+	g, _ := got.([]float64)
+	return g
 }
 
 func verifSliceOf(ds *Dataset, start, count []uint64) []float64 {
@@ -142,7 +152,9 @@ func verifDumpFile(name string) (d verifDump, openErr error) {
 				verifSliceOf(ds, []uint64{0}, []uint64{1}),
 				verifSliceOf(ds, []uint64{1}, []uint64{2}),
 				verifSliceOf(ds, []uint64{2}, []uint64{6}),
-				verifSliceOf(ds, []uint64{0, 1}, []uint64{1, 2}))
+				verifSliceOf(ds, []uint64{0, 1}, []uint64{1, 2}),
+				verifHyperOf(ds, []uint64{0}, []uint64{2}, []uint64{2}, []uint64{1}),
+				verifHyperOf(ds, []uint64{0, 0}, []uint64{1, 2}, []uint64{1, 2}, []uint64{1, 1}))
 			l, err := ds.ListAttributes()
 			if err != nil {
 				d.errs++
